@@ -89,3 +89,40 @@ def strip_once(F, rep, rule="C14.strip-once"):
     rep.ob(rule, "markers around number text are removed at most once in the string built-ins (%d str method calls inspected in %d functions)" % (nstr, len(fns)),
            "ok", "", None, key=rule + "|summary")
     rep.floor(rule + " str method calls reachable from the built-ins", nstr, 20)
+
+
+def unit_mix(F, rep, rule, crates):
+    """A position counted in characters (chars().position / count / enumerate index ...) handed to an API that takes a byte offset (split_at, get,
+    slicing, insert, ...) is wrong for every text with a multi-byte character before it -- and, when it lands inside a character, a panic."""
+    n = 0
+    hits = []
+    for cr in crates:
+        if cr not in F.crates:
+            continue
+        for g in F.crates[cr].fns:
+            srcs = []
+            for c in g.calls():
+                fu = c.t["func"]
+                d = fu.get("def") or ""
+                m = re.match(r"core::iter::traits::(?:iterator::Iterator|double_ended::DoubleEndedIterator)::(\w+)$", d)
+                if m and m.group(1) in ("position", "rposition", "count") and "core::str::iter::Chars" in (" ".join(fu.get("ga") or []) + " " + (fu.get("res") or "")):
+                    srcs.append(c)
+            if not srcs:
+                continue
+            n += len(srcs)
+            der = g.derived([c.dst["l"] for c in srcs], through_call=lambda c, idx: True if (c.matches(("core::option::Option::unwrap", "core::option::Option::unwrap_or",
+                                                                                                        "core::option::Option::expect", "core::option::Option::unwrap_or_default"))) else None)
+            for c in g.calls():
+                if c.matches(BYTE_BASED) and any(mir.op_local(a) in der for a in c.args[1:]):
+                    hits.append((g, c))
+                # slicing s[a..b]: the range aggregate is built from the position
+            for bi, si, d, rv, s in g.assigns():
+                if "agg" in rv and "Range" in str(rv["agg"].get("adt", "")) and any(mir.op_local(o) in der for o in rv["ops"]):
+                    hits.append((g, None))
+    for g, c in hits:
+        top = re.sub(r"::\{closure#\d+\}", "", g.path)
+        rep.ob(rule, "%s hands a character count to a byte-offset API (%s)" % (mir.short(top), mir.short(c.callee()) if c is not None else "a slice range"), "violated",
+               "with a multi-byte character before the position the offset is too small: wrong cut, or a panic when it lands inside a character",
+               c.span if c is not None else g.span, fn=g.path, key="%s|%s|%s" % (rule, mir.short(top), mir.short(c.callee()) if c is not None else "range"))
+    if not hits:
+        rep.ob(rule, "no character count is used as a byte offset (%d char-counting sites in %s)" % (n, "/".join(crates)), "ok", "", None, key=rule + "|summary")
